@@ -405,4 +405,18 @@ Proof.
   unfold entry_in. destruct (entry_toks inv e) as [ts|]; [|discriminate]. destruct (parse ts) as [c|] eqn:Ep; [|discriminate].
   intros H. apply existsb_exists in H as [c' [Hin Hc]]. apply cat_eqb_eq in Hc. subst c'. exists ts, c. now repeat split.
 Qed.
+
+Definition inv_nodupb (l : list (list text)) : bool :=
+  match parse_all l with Some cs => nodupb cs | None => false end.
+Lemma inv_nodupb_ok l : inv_nodupb l = true -> exists cs, parse_all l = Some cs /\ NoDup cs.
+Proof. unfold inv_nodupb. destruct (parse_all l) as [cs|]; [|discriminate]. intros H. exists cs. split; [reflexivity | now apply nodupb_ok]. Qed.
+
+Definition dict_inb (inv : list (list text)) (entries : list (nat + list text)) : bool :=
+  match parse_all inv with Some cs => forallb (entry_in inv cs) entries | None => false end.
+Lemma dict_inb_ok inv entries : dict_inb inv entries = true -> exists cs, parse_all inv = Some cs /\
+  forall e, In e entries -> exists ts c, entry_toks inv e = Some ts /\ parse ts = Some c /\ In c cs.
+Proof.
+  unfold dict_inb. destruct (parse_all inv) as [cs|]; [|discriminate]. intros H. exists cs. split; [reflexivity|].
+  intros e He. rewrite forallb_forall in H. exact (entry_in_ok inv cs e (H e He)).
+Qed.
 End Shipped.
